@@ -298,16 +298,109 @@ pub closed spec fn has_accepted(se: Seq<(Label, usize)>, d: Set<usize>, pf: Pf, 
 
 /// every edge of u in g is one of the first j source edges of u
 pub closed spec fn only_source(se: Seq<(Label, usize)>, ge: Seq<(Label, usize)>, j: int) -> bool {
-    forall|i: int| #![trigger ge[i]] 0 <= i < ge.len() ==> exists|x: int| 0 <= x < j && x < se.len() && #[trigger] se[x] == ge[i]
+    forall|i: int| 0 <= i < ge.len() ==> from_first(se, j, #[trigger] ge[i])
+}
+
+/// e is one of the first j entries of se
+pub closed spec fn from_first(se: Seq<(Label, usize)>, j: int, e: (Label, usize)) -> bool {
+    exists|x: int| 0 <= x < j && x < se.len() && #[trigger] se[x] == e
+}
+
+/// more source edges considered: still only source edges
+pub proof fn lemma_only_source_mono(se: Seq<(Label, usize)>, ge: Seq<(Label, usize)>, j: int, j2: int)
+    requires only_source(se, ge, j), j <= j2,
+    ensures only_source(se, ge, j2),
+{
+    assert forall|i: int| 0 <= i < ge.len() implies from_first(se, j2, #[trigger] ge[i]) by {
+        assert(from_first(se, j, ge[i]));
+        let x = choose|x: int| 0 <= x < j && x < se.len() && #[trigger] se[x] == ge[i];
+        assert(0 <= x < j2 && x < se.len() && se[x] == ge[i]);
+    }
+}
+
+/// source edge j appended
+pub proof fn lemma_only_source_push(se: Seq<(Label, usize)>, ge: Seq<(Label, usize)>, j: int)
+    requires only_source(se, ge, j), 0 <= j < se.len(),
+    ensures only_source(se, ge.push(se[j]), j + 1),
+{
+    let ge2 = ge.push(se[j]);
+    assert forall|i: int| 0 <= i < ge2.len() implies from_first(se, j + 1, #[trigger] ge2[i]) by {
+        if i < ge.len() {
+            assert(ge2[i] == ge[i]);
+            assert(from_first(se, j, ge[i]));
+            let x = choose|x: int| 0 <= x < j && x < se.len() && #[trigger] se[x] == ge[i];
+            assert(0 <= x < j + 1 && x < se.len() && se[x] == ge2[i]);
+        } else {
+            assert(0 <= j < j + 1 && j < se.len() && se[j] == ge2[i]);
+        }
+    }
+}
+
+/// source edge j is not copied: fine when its target is not kept or it is not accepted
+pub proof fn lemma_has_accepted_skip(se: Seq<(Label, usize)>, d: Set<usize>, pf: Pf, ge: Seq<(Label, usize)>, u: int, j: int)
+    requires has_accepted(se, d, pf, ge, u, j), 0 <= j < se.len(), !d.contains(se[j].1) || !pf(u as usize, se[j].1, se[j].0),
+    ensures has_accepted(se, d, pf, ge, u, j + 1),
+{
+    assert forall|x: int| 0 <= x < j + 1 && x < se.len() && d.contains((#[trigger] se[x]).1) && pf(u as usize, se[x].1, se[x].0) implies ge.contains(se[x]) by {
+        assert(x < j);
+    }
+}
+
+/// source edge j appended
+pub proof fn lemma_has_accepted_push(se: Seq<(Label, usize)>, d: Set<usize>, pf: Pf, ge: Seq<(Label, usize)>, u: int, j: int)
+    requires has_accepted(se, d, pf, ge, u, j), 0 <= j < se.len(),
+    ensures has_accepted(se, d, pf, ge.push(se[j]), u, j + 1),
+{
+    let ge2 = ge.push(se[j]);
+    assert forall|x: int| 0 <= x < j + 1 && x < se.len() && d.contains((#[trigger] se[x]).1) && pf(u as usize, se[x].1, se[x].0) implies ge2.contains(se[x]) by {
+        if x < j {
+            assert(ge.contains(se[x]));
+            let i = choose|i: int| 0 <= i < ge.len() && ge[i] == se[x];
+            assert(ge2[i] == se[x]);
+        } else {
+            assert(ge2[ge.len() as int] == se[x]);
+        }
+    }
+}
+
+/// the label of source edge j does not occur among edges copied from the first j source edges
+pub proof fn lemma_fresh_label(se: Seq<(Label, usize)>, ge: Seq<(Label, usize)>, j: int)
+    requires 0 <= j < se.len(), distinct_keys(se), only_source(se, ge, j),
+    ensures micromap::key_index(ge, se[j].0) < 0,
+{
+    lemma_key_index(ge, se[j].0);
+    let i = micromap::key_index(ge, se[j].0);
+    if i >= 0 {
+        assert(from_first(se, j, ge[i]));
+        let x = choose|x: int| 0 <= x < j && x < se.len() && #[trigger] se[x] == ge[i];
+        assert(se[x].0 != se[j].0);
+    }
+}
+
+/// every present vertex of g is kept
+pub closed spec fn sl_present_in(g: A, d: Set<usize>) -> bool {
+    forall|u: int| 0 <= u < g.tag.len() && #[trigger] present(g, u) ==> d.contains(u as usize)
+}
+/// kept ids below n are present in g and have all their accepted edges to kept vertices
+pub closed spec fn sl_done_below(src: A, d: Set<usize>, pf: Pf, g: A, n: int) -> bool {
+    forall|u: int| 0 <= u < n && u < g.tag.len() && d.contains(u as usize) ==> #[trigger] present(g, u) && has_accepted(src.edges[u], d, pf, g.edges[u], u, src.edges[u].len() as int)
+}
+/// every vertex other than x has source edges only
+pub closed spec fn sl_only_source_except(src: A, g: A, x: int) -> bool {
+    forall|u: int| #![trigger g.edges[u]] 0 <= u < g.tag.len() && u != x ==> only_source(src.edges[u], g.edges[u], src.edges[u].len() as int)
+}
+/// ids from n on have no edges yet
+pub closed spec fn sl_empty_from(g: A, n: int) -> bool {
+    forall|u: int| n <= u < g.tag.len() ==> #[trigger] g.edges[u] == Seq::<(Label, usize)>::empty()
 }
 
 /// between two kept vertices: ids below `upto` are finished, ids from `upto` on have no edges yet
 pub closed spec fn sl_inv(src: A, d: Set<usize>, pf: Pf, g: A, upto: int) -> bool {
     &&& sl_dims(src, g)
-    &&& forall|u: int| 0 <= u < g.tag.len() && #[trigger] present(g, u) ==> d.contains(u as usize)
-    &&& forall|u: int| 0 <= u < upto && u < g.tag.len() && d.contains(u as usize) ==> #[trigger] present(g, u) && has_accepted(src.edges[u], d, pf, g.edges[u], u, src.edges[u].len() as int)
-    &&& forall|u: int| #![trigger g.edges[u]] 0 <= u < g.tag.len() ==> only_source(src.edges[u], g.edges[u], src.edges[u].len() as int)
-    &&& forall|u: int| upto <= u < g.tag.len() ==> #[trigger] g.edges[u] == Seq::<(Label, usize)>::empty()
+    &&& sl_present_in(g, d)
+    &&& sl_done_below(src, d, pf, g, upto)
+    &&& sl_only_source_except(src, g, -1)
+    &&& sl_empty_from(g, upto)
 }
 
 /// inside kept vertex v1, after j of its source edges
@@ -315,11 +408,11 @@ pub closed spec fn sl_mid(src: A, d: Set<usize>, pf: Pf, g: A, v1: int, j: int) 
     &&& sl_dims(src, g)
     &&& 0 <= v1 < g.tag.len() && 0 <= j <= src.edges[v1].len()
     &&& d.contains(v1 as usize)
-    &&& forall|u: int| 0 <= u < g.tag.len() && #[trigger] present(g, u) ==> d.contains(u as usize)
-    &&& forall|u: int| 0 <= u < v1 && d.contains(u as usize) ==> #[trigger] present(g, u) && has_accepted(src.edges[u], d, pf, g.edges[u], u, src.edges[u].len() as int)
+    &&& sl_present_in(g, d)
+    &&& sl_done_below(src, d, pf, g, v1)
     &&& present(g, v1) && has_accepted(src.edges[v1], d, pf, g.edges[v1], v1, j) && only_source(src.edges[v1], g.edges[v1], j) && g.edges[v1].len() <= j
-    &&& forall|u: int| #![trigger g.edges[u]] 0 <= u < g.tag.len() && u != v1 ==> only_source(src.edges[u], g.edges[u], src.edges[u].len() as int)
-    &&& forall|u: int| v1 < u < g.tag.len() ==> #[trigger] g.edges[u] == Seq::<(Label, usize)>::empty()
+    &&& sl_only_source_except(src, g, v1)
+    &&& sl_empty_from(g, v1 + 1)
 }
 
 pub proof fn lemma_sl_init(src: A, d: Set<usize>, pf: Pf, g: A)
@@ -361,10 +454,8 @@ pub proof fn lemma_sl_skip(src: A, d: Set<usize>, pf: Pf, g: A, v1: int, j: int)
         !d.contains(src.edges[v1][j].1) || !pf(v1 as usize, src.edges[v1][j].1, src.edges[v1][j].0),
     ensures sl_mid(src, d, pf, g, v1, j + 1),
 {
-    assert forall|i: int| #![trigger g.edges[v1][i]] 0 <= i < g.edges[v1].len() implies exists|x: int| 0 <= x < j + 1 && x < src.edges[v1].len() && #[trigger] src.edges[v1][x] == g.edges[v1][i] by {
-        let x = choose|x: int| 0 <= x < j && x < src.edges[v1].len() && #[trigger] src.edges[v1][x] == g.edges[v1][i];
-        assert(src.edges[v1][x] == g.edges[v1][i]);
-    }
+    lemma_only_source_mono(src.edges[v1], g.edges[v1], j, j + 1);
+    lemma_has_accepted_skip(src.edges[v1], d, pf, g.edges[v1], v1, j);
 }
 
 /// a source edge (k, v2) of v1 whose target is kept, first half: add(v2)
@@ -408,14 +499,16 @@ pub proof fn lemma_sl_bound(src: A, d: Set<usize>, pf: Pf, g2: A, g3: A, v1: int
 {
     let v2 = src.edges[v1][j].1 as int;
     let k = src.edges[v1][j].0;
+    let se = src.edges[v1];
     let e2 = g2.edges[v1];
-    lemma_sl_fresh_label(src, g2, v1, j);
+    lemma_fresh_label(se, e2, j);
     assert(present(g2, v1));
     assert(g3.edges[v1] == upsert(e2, k, v2 as usize));
     assert(upsert(e2, k, v2 as usize) == e2.push((k, v2 as usize)));
-    assert(src.edges[v1][j] == (k, v2 as usize));
-    let e3 = g3.edges[v1];
-    assert(e3[e2.len() as int] == src.edges[v1][j]);
+    assert(se[j] == (k, v2 as usize));
+    assert(g3.edges[v1] == e2.push(se[j]));
+    lemma_only_source_push(se, e2, j);
+    lemma_has_accepted_push(se, d, pf, e2, v1, j);
     assert(g3.tag.len() == g2.tag.len());
     assert forall|u: int| 0 <= u < g2.tag.len() implies (#[trigger] present(g3, u) <==> present(g2, u)) by {}
     assert forall|u: int| 0 <= u < g3.tag.len() && #[trigger] present(g3, u) implies d.contains(u as usize) by {
@@ -426,43 +519,9 @@ pub proof fn lemma_sl_bound(src: A, d: Set<usize>, pf: Pf, g2: A, g3: A, v1: int
         assert(has_accepted(src.edges[u], d, pf, g2.edges[u], u, src.edges[u].len() as int));
         assert(g3.edges[u] == g2.edges[u]);
     }
-    assert(has_accepted(src.edges[v1], d, pf, g3.edges[v1], v1, j + 1)) by {
-        assert forall|x: int| 0 <= x < j + 1 && x < src.edges[v1].len() && d.contains((#[trigger] src.edges[v1][x]).1)
-            && pf(v1 as usize, src.edges[v1][x].1, src.edges[v1][x].0) implies e3.contains(src.edges[v1][x]) by {
-            if x < j {
-                assert(e2.contains(src.edges[v1][x]));
-                let i = choose|i: int| 0 <= i < e2.len() && e2[i] == src.edges[v1][x];
-                assert(e3[i] == e2[i]);
-            }
-        }
-    }
-    assert(only_source(src.edges[v1], g3.edges[v1], j + 1)) by {
-        assert forall|i: int| #![trigger e3[i]] 0 <= i < e3.len() implies exists|x: int| 0 <= x < j + 1 && x < src.edges[v1].len() && #[trigger] src.edges[v1][x] == e3[i] by {
-            if i < e2.len() {
-                let x = choose|x: int| 0 <= x < j && x < src.edges[v1].len() && #[trigger] src.edges[v1][x] == e2[i];
-                assert(src.edges[v1][x] == e3[i]);
-            } else {
-                assert(src.edges[v1][j] == e3[i]);
-            }
-        }
-    }
     assert forall|u: int| #![trigger g3.edges[u]] 0 <= u < g3.tag.len() && u != v1 implies only_source(src.edges[u], g3.edges[u], src.edges[u].len() as int) by {
         assert(only_source(src.edges[u], g2.edges[u], src.edges[u].len() as int));
         assert(g3.edges[u] == g2.edges[u]);
-    }
-}
-
-/// the label of source edge j does not occur among the edges copied from the first j source edges
-pub proof fn lemma_sl_fresh_label(src: A, g: A, v1: int, j: int)
-    requires 0 <= j < src.edges[v1].len(), distinct_keys(src.edges[v1]), only_source(src.edges[v1], g.edges[v1], j),
-    ensures micromap::key_index(g.edges[v1], src.edges[v1][j].0) < 0,
-{
-    let e = g.edges[v1];
-    lemma_key_index(e, src.edges[v1][j].0);
-    let i = micromap::key_index(e, src.edges[v1][j].0);
-    if i >= 0 {
-        let x = choose|x: int| 0 <= x < j && x < src.edges[v1].len() && #[trigger] src.edges[v1][x] == e[i];
-        assert(src.edges[v1][x].0 != src.edges[v1][j].0);
     }
 }
 
@@ -497,6 +556,7 @@ pub proof fn lemma_sl_final(src: A, pf: Pf, v0: usize, d: Set<usize>, g: A, upto
     }
     assert forall|u: int, i: int| 0 <= u < g.tag.len() && 0 <= i < g.edges[u].len() implies src.edges[u].contains(#[trigger] g.edges[u][i]) by {
         assert(only_source(src.edges[u], g.edges[u], src.edges[u].len() as int));
+        assert(from_first(src.edges[u], src.edges[u].len() as int, g.edges[u][i]));
         let x = choose|x: int| 0 <= x < src.edges[u].len() && x < src.edges[u].len() && #[trigger] src.edges[u][x] == g.edges[u][i];
         assert(src.edges[u][x] == g.edges[u][i]);
     }
